@@ -111,6 +111,7 @@ func init() {
 	c15 := &Property{ID: "C15", Pkgs: []string{"client/setec"}, Bounds: map[string]string{"events": "histories of 4 / 6 events (install | Get) after creation, builder may fail at every call"}}
 	c15.Harnesses = append(c15.Harnesses,
 		ch("verifHarnessC15Updater", map[string]int{"steps": 4}, map[string]int{"steps": 6}, []string{"end", "end-create-failed"}, "NewUpdater + bounded histories of installs and Gets with failing builders and closers"),
+		ch("verifHarnessC15TwoUpdaters", map[string]int{"steps": 4}, map[string]int{"steps": 5}, []string{"end"}, "two updaters on one secret: every install reaches both, each rebuilds only when owed"),
 		ch("verifHarnessC15Notify", map[string]int{}, nil, []string{"end"}, "notify is non-blocking and a level trigger"))
 	propRegistry = append(propRegistry, c15)
 
